@@ -198,6 +198,23 @@ def check_reserve_algebra(ctx, R):
                                         self_field(tt) == f for tt in (y.targets if isinstance(y, ast.Assign) else [y.target])):
                                     fail('single-store', 'self.%s is written again in an exception handler / finally block (line %d): '
                                          'a slot handed back is a slot another waiting element already owns' % (f, y.lineno))
+    # ... and nothing but update() (and the constructor, and what they call) writes it: a start()/stop()/hook that resets the
+    # reservation erases the slots that elements still asleep are holding - the next arrival overtakes them
+    if f:
+        spliced = {fn.name, '__init__'}
+        for mname, m_ in cls.methods.items():
+            if mname in spliced:
+                continue
+            called_from_update = any(isinstance(c_, ast.Call) and isinstance(c_.func, ast.Attribute) and c_.func.attr == mname
+                                     and isinstance(c_.func.value, ast.Name) and c_.func.value.id == 'self'
+                                     for g_ in (fn, cls.methods.get('__init__')) if g_ is not None for c_ in own_nodes(g_.node))
+            if called_from_update:
+                continue
+            for y in own_nodes(m_.node):
+                if isinstance(y, (ast.Assign, ast.AugAssign)) and any(
+                        self_field(tt) == f for tt in (y.targets if isinstance(y, ast.Assign) else [y.target])):
+                    fail('single-store', 'self.%s is also written by %s() (line %d): resetting the reservation while elements are '
+                         'asleep on their slots lets the next arrival overtake them' % (f, mname, y.lineno))
     for tok in ('single-store', 'new-reservation', 'sleep', 'order'):
         R.ob('RESERVE-ALGEBRA', con, tok, tok not in bad, bad.get(tok, ''), ctx.where(fn, fn.node.lineno), None, len(paths))
     # initial reservation lies in the past (an idle line passes at once)
